@@ -7,7 +7,11 @@ also the flag `closed`) passed as state; each generated definition returns the m
 final attribute values.  Methods decorated with `@_if_not_closed` are translated for the case in which the guard
 passes; the guard itself is the model's `dead`.  Proved here: every one of them equals the model function the C13
 theorems are about (`mkView`, `View.len`, `View.address`, `View.available`, `doSeek`, `sliceBounds` /
-`doSliceOrig`'s test of the step).
+`doSliceOrig`'s test of the step).  Third round: `read` and `write` themselves - the generated definitions record
+the calls `warnings.warn`, `self._parent._perform_read(address, n)`, `self._parent._perform_write(address, data)`
+as events (last component of the result) and take what `_perform_read` returns as an input; proved: the
+truncation is the model's `readCount` / `writeData`, the call is made with the address BEFORE the offset moves,
+the offset then advances by the number of bytes transferred (`doRead` / `doWrite`).
 -/
 import RigModel.Model.C13
 import RigModel.Gen.PyFun
@@ -119,6 +123,75 @@ theorem gen_slice (w : World) (v : View) (a b step : Option Int) :
   by_cases hs : step = none ∨ step = some 1
   · simp only [hs, if_true]
   · simp only [hs, if_false]
+
+/-! ### `read` and `write`: truncation, the call on the parent, the offset update (in this order) -/
+
+/-- a byte string of the model as the Python `bytes` value -/
+def bytesInt (d : List Nat) : List Int := d.map (fun (n : Nat) => (n : Int))
+
+/-- the `TruncationWarning`, as the event the generated code records -/
+def warnEv (b : Bool) : List PyFun.PyEvent := if b then [⟨"warn", [], []⟩] else []
+
+/-- `read` as written in the source (behind the `_if_not_closed` guard; `din` is what `_perform_read` returns):
+the number of bytes and the warning are the model's `readCount`; nothing is read and the offset stays when the
+count is not positive; otherwise `_perform_read(address, count)` is called with the address BEFORE the offset
+moves, then the offset advances by the count - what the model's `doRead` does -/
+theorem gen_read (v : View) (nBytes : Int) (din : List Int) :
+    PyFun.SlicedMemoryIO_read v.start v.stop v.offset nBytes din =
+      if (readCount v nBytes).2 ≤ 0 then ([], v.start, v.stop, v.offset, warnEv (readCount v nBytes).1)
+      else (din, v.start, v.stop, v.offset + (readCount v nBytes).2,
+            warnEv (readCount v nBytes).1 ++ [⟨"_perform_read", [v.address, (readCount v nBytes).2], []⟩]) := by
+  unfold PyFun.SlicedMemoryIO_read readCount
+  simp only [gen_bytes_available, gen_address, warnEv]
+  split_ifs <;> first | rfl | (simp_all; done) | (simp_all; omega)
+
+theorem length_bytesInt (d : List Nat) : ((bytesInt d).length : Int) = (d.length : Int) := by simp [bytesInt]
+
+/-- `bytes[:n]` -/
+theorem pySlice_prefix (d : List Nat) (n : Int) : PyFun.pySlice (bytesInt d) 0 n = bytesInt (pyPrefix d n) := by
+  unfold PyFun.pySlice pyPrefix bytesInt
+  simp only [List.length_map, Int.lt_irrefl, if_false, List.drop_zero]
+  have e0 : (min (0 : Int) (d.length : Int)).toNat = 0 := by omega
+  rw [e0, List.drop_zero, ← List.map_take]
+  congr 1
+  by_cases hn : n < 0
+  · have h0 : ¬ (0 ≤ n) := by omega
+    simp only [hn, h0, if_true, if_false]
+    congr 1; omega
+  · have h0 : 0 ≤ n := by omega
+    simp only [hn, h0, if_true, if_false]
+    rw [List.take_eq_take_iff]; omega
+
+/-- `write` as written in the source: the data is truncated as the model's `writeData` says, nothing happens for an
+empty string, otherwise `_perform_write(address, data)` with the address before the offset moves -/
+theorem gen_write (v : View) (d : List Nat) :
+    PyFun.SlicedMemoryIO_write v.start v.stop v.offset (bytesInt d) =
+      if (writeData v d).2.length = 0 then (0, v.start, v.stop, v.offset, warnEv (writeData v d).1)
+      else (((writeData v d).2.length : Int), v.start, v.stop, v.offset + ((writeData v d).2.length : Int),
+            warnEv (writeData v d).1 ++ [⟨"_perform_write", [v.address], bytesInt (writeData v d).2⟩]) := by
+  unfold PyFun.SlicedMemoryIO_write writeData
+  simp only [gen_bytes_available, gen_address, warnEv, length_bytesInt]
+  by_cases h1 : (d.length : Int) > v.available <;> simp only [h1, if_true, if_false, List.nil_append]
+  · rw [pySlice_prefix, length_bytesInt]
+    by_cases h3 : (pyPrefix d v.available).length = 0
+    · rw [if_pos h3]
+      split
+      · rfl
+      · exfalso; omega
+    · rw [if_neg h3]
+      split
+      · exfalso; omega
+      · rfl
+  · rw [length_bytesInt]
+    by_cases h3 : d.length = 0
+    · rw [if_pos h3]
+      split
+      · rfl
+      · exfalso; omega
+    · rw [if_neg h3]
+      split
+      · exfalso; omega
+      · rfl
 
 /-- non-vacuity: a concrete view, sliced -/
 example : PyFun.SlicedMemoryIO_getitem 100 200 0 (some 10, some (-20), none) = .ok ((110, 180), 100, 200, 0) := by
